@@ -62,6 +62,7 @@ func (c *operatorCluster) flush() {
 }
 
 type batchingOperator struct {
+	ctx     context.Context // ends with the deployment the cluster belongs to
 	op      proto.Operator
 	batcher *batching.EventBatcher[*workerpb.Event]
 	errChan chan<- error
@@ -70,6 +71,7 @@ type batchingOperator struct {
 
 func newBatchingOperator(ctx context.Context, op proto.Operator, params batching.EventBatcherParams, errChan chan<- error) *batchingOperator {
 	o := &batchingOperator{
+		ctx:     ctx,
 		op:      op,
 		batcher: batching.NewEventBatcher[*workerpb.Event](ctx, params),
 		batches: make(chan []*workerpb.Event),
@@ -82,11 +84,13 @@ func newBatchingOperator(ctx context.Context, op proto.Operator, params batching
 			case <-ctx.Done():
 				return
 			case batchToken := <-o.batcher.BatchTimedOut:
-				if err := o.op.HandleEventBatch(ctx, o.batcher.Flush(batchToken)); err != nil {
+				if err := o.op.HandleEventBatch(ctx, o.batcher.Flush(batchToken)); err != nil && ctx.Err() == nil {
 					o.errChan <- err
 				}
 			case batch := <-o.batches:
-				if err := o.op.HandleEventBatch(ctx, batch); err != nil {
+				// A call that fails because the deployment ended (the runner is
+				// deployed again) is not an error of the runner.
+				if err := o.op.HandleEventBatch(ctx, batch); err != nil && ctx.Err() == nil {
 					o.errChan <- err
 				}
 			}
@@ -104,5 +108,8 @@ func (o *batchingOperator) HandleEvent(event *workerpb.Event) {
 }
 
 func (o *batchingOperator) Flush() {
-	o.batches <- o.batcher.Flush(batching.CurrentBatch)
+	select {
+	case o.batches <- o.batcher.Flush(batching.CurrentBatch):
+	case <-o.ctx.Done(): // nobody receives batches once the deployment ended
+	}
 }
